@@ -57,7 +57,9 @@ fn main() {
                 }
             }
         }
-        "codec" => {
+        "codec" | "ops" => {
+            let salt: u64 = if cmd == "codec" { 0xC0DEC } else { 0x0B5 };
+            let genf: fn(&mut Rng, bool) -> serde_json::Value = if cmd == "codec" { cvh::codec::gen_case } else { cvh::ops::gen_case };
             std::panic::set_hook(Box::new(|_| {}));
             if let Some(p) = arg(&args, "--replay") {
                 // replay: lines carry their generator coordinates
@@ -65,16 +67,16 @@ fn main() {
                     let j: serde_json::Value = serde_json::from_str(l).unwrap();
                     let (s, c) = (j["gen"]["seed"].as_u64().unwrap_or(seed), j["gen"]["case"].as_u64().unwrap_or(0));
                     let th = j["gen"]["thorough"].as_bool().unwrap_or(false);
-                    let mut rng = Rng::new(s.wrapping_mul(1_000_003).wrapping_add(c) ^ 0xC0DEC);
-                    let mut line = cvh::codec::gen_case(&mut rng, th);
+                    let mut rng = Rng::new(s.wrapping_mul(1_000_003).wrapping_add(c) ^ salt);
+                    let mut line = genf(&mut rng, th);
                     line["case"] = json!(c); line["gen"] = json!({"seed": s, "case": c, "thorough": th});
                     let mut o = out.lock(); writeln!(o, "{}", line).unwrap();
                 }
                 return;
             }
             for case in start..cases {
-                let mut rng = Rng::new(seed.wrapping_mul(1_000_003).wrapping_add(case) ^ 0xC0DEC);
-                let mut line = cvh::codec::gen_case(&mut rng, thorough);
+                let mut rng = Rng::new(seed.wrapping_mul(1_000_003).wrapping_add(case) ^ salt);
+                let mut line = genf(&mut rng, thorough);
                 line["case"] = json!(case); line["gen"] = json!({"seed": seed, "case": case, "thorough": thorough});
                 let mut o = out.lock(); writeln!(o, "{}", line).unwrap();
             }
